@@ -44,6 +44,10 @@ type XStr struct{ B []Value }
 // OStr is an opaque string of unknown length: a (Seq (_ BitVec 8)) term.
 type OStr struct{ T *smt.Term }
 
+// OBytes is []byte(opaque string): it can only be passed around and
+// converted back to a string.
+type OBytes struct{ T *smt.Term }
+
 type Tuple []Value
 type Array []Value
 type Struct []Value
